@@ -5,17 +5,50 @@ HERE = os.path.dirname(os.path.dirname(os.path.abspath(__file__)))
 props = [json.loads(l) for l in open(os.path.join(HERE, 'properties.jsonl'))]
 ids = [p['id'] for p in props]
 
+TRUST = ('Trusted: rustc nightly MIR dump of the current tree, the MIR executor (lib/mirsym) and the contract models it lists in the '
+         'evidence, z3. Counterexamples are replayed against the real build before being reported; exit 2 = inconclusive. ')
+TECH = 'symbolic execution of rustc MIR + z3 (bounded; all values within the bounds)'
 CHECKS = {
+ 'C01': dict(
+   level='model_checking', design_ref='DESIGN.md §5 C01',
+   text='The whole real walker (Searcher::new, list_search_results, visit_dir, ok_to_visit_dir, is_buffered) is executed symbolically from '
+        'MIR over an abstract file system whose tree shape, entry kinds, link targets, depth window and root depth are solver variables; on every '
+        'path z3 decides that the reported multiset equals {entries whose nesting level is in the window, reachable through directories only}, '
+        'each exactly once, with bfs depth-monotone and dfs subtree-contiguous order. Counterexamples are rebuilt on disk and run through the real binary.',
+   note=TRUST + 'Bounds: 4 (quick) / 5 (thorough) nodes, 1 and 2 roots, window bounds 0..nodes+1, root depth 1..4. Assumed: the file-system contract models '
+        '(read_dir lists children in index order; canonicalize/read_link/file_type by contract); check_file summarised as a ghost trace; '
+        'special files behave like regular files; links not followed (C18); parse_roots/parse_root_options are not covered here.',
+   technique=TECH),
+ 'C02': dict(
+   level='model_checking', design_ref='DESIGN.md §5 C02',
+   text='The real evaluator (Searcher::conforms, get_column_expr_value, Expr::fmt, Variant::to_int/to_float/to_bool/to_datetime, str_to_bool) and '
+        'the real parser pieces (parse_cond BETWEEN desugaring, parse_func_scalar) are executed symbolically from MIR; z3 decides, for every operator and '
+        'all 64-bit / f64 / bool / timestamp operands, that the comparison equals the documented relation, that decimal and boolean literals are '
+        'coerced to what they spell, that BETWEEN is inclusive, and that quoted literals stay values.',
+   note=TRUST + 'Assumed: get_field_value summarised as an arbitrary Variant of the column type (C04 decides the real attribute); Float operands non-NaN; '
+        'text patterns are C12, date literals C13, unit suffixes C14; only = / != on booleans and the six documented operators on dates are claimed. '
+        'BETWEEN literals from a 5-entry table, x over all non-negative i64.',
+   technique=TECH),
  'C03': dict(
    level='model_checking', design_ref='DESIGN.md §5 C03',
-   text='Bounded symbolic model checking of the real MIR: Op::negate, Parser::negate_expr_op and Searcher::conforms are '
-        'executed symbolically; z3 decides, for every operator and all 64-bit / f64 / bool / timestamp operand values, that '
-        'negation yields the complement, and for every Expr tree up to the stated depth that negate_expr_op complements the '
-        'evaluation (De Morgan). Counterexamples are replayed through the real binary on a real directory before being reported.',
-   note='Trusted: rustc nightly MIR dump, the MIR executor and its contract models (listed in the evidence), z3. Assumed: '
-        'get_column_expr_value summarised as an arbitrary Variant of the column type; operators restricted to well-typed '
-        '(type, operator) pairs; regex verdicts uninterpreted; tree depth <= 1 (quick) / 2 (thorough). The property\'s nesting depth 5 is not reached.',
-   technique='symbolic execution of rustc MIR + z3 (bounded, all operand values)'),
+   text='Op::negate, Parser::negate_expr_op, Parser::parse_expr/parse_and/parse_cond/parse_paren and Searcher::conforms are executed symbolically '
+        'from MIR; z3 decides for every operator and all operand values that negation yields the complement, for every Expr tree up to the stated depth '
+        'that negate_expr_op complements the evaluation (De Morgan), that NOT BETWEEN is the complement of BETWEEN, and for every well-formed token '
+        'sequence over three boolean atoms / and / or / not / ( ) { } up to the stated length that the parsed tree evaluates as the textbook valuation.',
+   note=TRUST + 'Assumed: get_field_value summarised; operators restricted to well-typed (type, operator) pairs; regex verdicts uninterpreted. '
+        'Bounds: trees of depth 1 (quick) / 2 (thorough); formulas of <= 4 (quick) / <= 6 (thorough) tokens, so nesting <= 2: the depth 5 of the '
+        'property statement is not reached.',
+   technique=TECH),
+ 'C06': dict(
+   level='model_checking', design_ref='DESIGN.md §5 C06',
+   text='TopN::{new,limitless,insert,values} are executed symbolically from MIR over a BTreeMap contract model: one insert from every valid pre-state '
+        '(<= 3/4 distinct keys x <= 2 rows per key, values / inserted key / limit symbolic) preserves the representation invariant, evicts exactly when '
+        'full and evicts the last row of the greatest key; histories of <= 3/4 inserts give the first min(N, limit) rows of the stable sort. The early-exit '
+        'guards of the real walker (directory, archive-member and roots loops) and Searcher::new\'s TopN choice are decided inside the abstract file '
+        'system with symbolic LIMIT, archives, ordered / unordered queries, 1 and 2 roots; parse_limit on symbolic lexems.',
+   note=TRUST + 'Assumed: BTreeMap/Vec contract models; TopN keys abstract (u32) — the real key order is C05; abstract file system as in C01; quick tier '
+        'runs the walker without a WHERE clause (every row matches), thorough with symbolic per-row verdicts. Bounds: 4/5 nodes, <= 2 members per archive.',
+   technique=TECH),
 }
 REASON_TODO = 'check not built yet in this session (planned: see DESIGN.md §5); not claimed until it exists'
 NA = {}
